@@ -122,6 +122,14 @@ def check_rt(case, rec=None):
         elif d.shape != expdense.shape or not np.array_equal(d, expdense):
             fails.append(fail("roundtrip", "%s: to_dense differs from where(mask,data,0) at %d pixels" %
                               (name, int((np.asarray(d) != expdense).sum())), fn=name))
+        # a caller-supplied output image (re-used from frame to frame, or np.empty) must come back as the frame alone
+        buf = np.full(expdense.shape, 7, fr.pixels["intensity"].dtype)
+        ok, d2 = guard(fr.to_dense, "intensity", buf)
+        if not ok:
+            fails.append(exc_failure(name + ".to_dense(out=)", d2))
+        elif not (np.array_equal(d2, expdense) and np.array_equal(buf, expdense)):
+            fails.append(fail("roundtrip", "%s: to_dense(out=buffer holding other values) differs from where(mask,data,0) "
+                              "at %d pixels" % (name, int((np.asarray(buf) != expdense).sum())), fn=name + ".out"))
         if fr.pixels["intensity"].dtype != expdense.dtype:
             fails.append(fail("dtype", "%s: pixel dtype %s, data %s" % (name, fr.pixels["intensity"].dtype,
                                                                         expdense.dtype), fn=name))
@@ -139,26 +147,34 @@ def check_rt(case, rec=None):
     dm = None
     if case["detmask"]:
         dm = (np.random.RandomState(case["spec"]["seed"] % 1000).random_sample(mask.shape) < 0.8).astype(np.uint8)
-    sel = (data > cut) & (dm.astype(bool) if dm is not None else True)
+    data_c = data
+    if case["dtype"] == "float32" and case["spec"]["seed"] % 3 == 0:
+        # detector images after flat-field division: a few NaN / inf pixels; NaN is not above any cut
+        data_c = data.copy()
+        rs = np.random.RandomState((case["spec"]["seed"] + 17) % (2 ** 32))
+        for bad in (np.nan, np.inf, -np.inf, np.nan):
+            data_c[rs.randint(data.shape[0]), rs.randint(data.shape[1])] = bad
+    with np.errstate(invalid="ignore"):
+        sel = (data_c > cut) & (dm.astype(bool) if dm is not None else True)
     if sel.any():
         if case["dtype"] in ("uint16", "float32"):
-            ok, fc = guard(sparseframe.from_data_cut, data, cut, {}, dm)
+            ok, fc = guard(sparseframe.from_data_cut, data_c, cut, {}, dm)
             if not ok:
                 fails.append(exc_failure("from_data_cut", fc))
             else:
-                frame_ok(fc, "from_data_cut", sel, np.where(sel, data, 0).astype(data.dtype))
+                frame_ok(fc, "from_data_cut", sel, np.where(sel, data_c, 0).astype(data.dtype))
         kern = {"uint16": "tosparse_u16", "uint32": "tosparse_u32", "float32": "tosparse_f32"}[case["dtype"]]
         row = np.full(data.shape, 9, np.uint16)
         col = np.full(data.shape, 9, np.uint16)
         val = np.full(data.shape, 9, data.dtype)
         m8 = dm if dm is not None else np.ones(data.shape, np.uint8)
-        ok, nnz = guard(getattr(cImageD11, kern), data, m8, row, col, val, cut)
+        ok, nnz = guard(getattr(cImageD11, kern), data_c, m8, row, col, val, cut)
         if not ok:
             fails.append(exc_failure(kern, nnz))
         else:
             ri, rj = np.nonzero(sel)
             if nnz != len(ri) or not np.array_equal(row.ravel()[:nnz], ri) or \
-                    not np.array_equal(col.ravel()[:nnz], rj) or not np.array_equal(val.ravel()[:nnz], data[sel]):
+                    not np.array_equal(col.ravel()[:nnz], rj) or not np.array_equal(val.ravel()[:nnz], data_c[sel]):
                 fails.append(fail("tosparse", "%s: returned pixels differ from data>cut under the mask (nnz %s, "
                                   "expected %d)" % (kern, nnz, len(ri)), fn=kern))
     elif rec is not None:
